@@ -15,8 +15,10 @@ SPEC = {
 MANIFEST = {
     "text": ("Receive-side enforcement of StreamsState/Recv/Chunks (stream and connection flow control, stream-count limit, "
              "final-size consistency, credit issuance, stream credit on termination) is modelled in Coq (Model/FlowRecv.v) and the "
-             "C06 theorems are proved for all op sequences (frames interleaved with reads, stops, resets, window changes) by "
-             "induction over the sequence. The model is tied to the Rust code on every run by differential correspondence through the "
+             "C06 theorems over_limit_rejected (per frame, all states) and accounting_exact (all op sequences: frames interleaved with "
+             "ordered/unordered reads, stops, resets, window changes, control frames; includes the assembler invariant bytes_read <= end) "
+             "are proved by induction over the sequence; buffered_bounded, credit_only_for_consumed and stream_credit_only_when_terminal "
+             "are stated in full and enforced by the oracle only. The model is tied to the Rust code on every run by differential correspondence through the "
              "flow_recv hook (all probes compared verbatim) and by an independent ledger oracle evaluated on the implementation's outputs. "
              "Three defects were found by the faithful model and are repaired by fix: commits (double credit for stopped+reset streams, "
              "FIN below the high-water mark accepted, F2 stream dropped on IllegalOrderedRead); their witnesses are kept as _refuted "
